@@ -63,6 +63,11 @@ func c20WellFormedSuites(thorough bool) []*c20Suite {
 			req("POST", inst+"/elements", "["+el(10, 10, 10, `"t7"`)+","+el(12, 12, 12, `"t1"`)+"]", "overwrite replaces tag t1 by t7, new element adds t1"),
 			req("POST", inst+"/elements", "["+el(10, 10, 10, "")+","+el(12, 12, 12, `"t9"`)+"]", "overwrite drops t1, new element adds a new tag t9"),
 			req("POST", inst+"/elements", "["+el(10, 10, 10, "")+"]", "overwrite drops the only tag"),
+			// one request that takes several elements out of one tag list (t1 holds 10_10_10 and 20_20_20, t2 holds 20_20_20 and 70_10_10)
+			req("POST", inst+"/elements", "["+el(10, 10, 10, "")+","+el(20, 20, 20, "")+"]", "two overwrites drop every element of tag t1 (and one of t2) in one request"),
+			req("POST", inst+"/elements", "["+el(20, 20, 20, "")+","+el(10, 10, 10, "")+"]", "the same in the other order"),
+			req("POST", inst+"/elements", "["+el(20, 20, 20, `"t1"`)+","+el(70, 10, 10, "")+"]", "two overwrites drop every element of tag t2 in one request"),
+			req("POST", inst+"/elements", "["+el(10, 10, 10, `"t3"`)+","+el(20, 20, 20, `"t3"`)+","+el(70, 10, 10, `"t3"`)+"]", "three overwrites move every element from t1 / t2 to t3"),
 			req("POST", inst+"/elements", "["+el(10, 10, 10, `"t1","t1"`)+"]", "the same tag twice"),
 			req("POST", inst+"/elements", "["+el(10, 10, 10, `"t1"`)+","+el(10, 10, 10, `"t2"`)+"]", "the same position twice with different tags"),
 			req("POST", inst+"/elements", "[]", "empty element list"),
